@@ -100,6 +100,30 @@ def apply_seq(m, seq):
     return m
 
 
+def rename_used(m1, m2):
+    """parameter correspondence up to naming for the MODEL FUNCTION (observation values, dA/dt, dose attachments):
+    identical names correspond; parameters that occur in the outputs of one model only correspond by position (a setter
+    may leave an unused parameter / dead statement behind and create a fresh parameter for the same role)."""
+    semeq = _W['C07']._W['semeq']
+
+    def out_leaves(m):
+        d = semeq.denote(m.statements)
+        exprs = [d.env[s] for s in d.env if str(s) in [str(x) for x in m.dependent_variables]] + list(d.odes.values())
+        for c in d.comp.values():
+            exprs += [c['lag'], c['bio'], c['input']]
+        names = set()
+        for e in exprs:
+            names |= {str(x) for x in e.free_symbols}
+        return [p for p in m.parameters.names if p in names]
+    l1, l2 = out_leaves(m1), out_leaves(m2)
+    ren = {}
+    only1 = [p for p in l1 if p not in l2]
+    only2 = [p for p in l2 if p not in l1]
+    for a, b in zip(only1, only2):
+        ren[a] = b
+    return ren
+
+
 def run_case(case):
     if not _W:
         _init()
@@ -171,7 +195,7 @@ def run_case(case):
     # --- idempotence (z3) --------------------------------------------------------------------------------------------
     try:
         m2 = F[cat][val](m1)
-        r = C07.compare(m1, m2, _W['nmcompare'].rename_unmatched(m1, m2), [], eq)
+        r = C07.compare(m1, m2, rename_used(m1, m2), [], eq, outputs_only=True)
         bad = [(o, d) for o, v, d in r if v == 'violated']
         inc = [o for o, v, d in r if v == 'inconclusive']
         if bad:
@@ -194,7 +218,7 @@ def run_case(case):
     else:
         try:
             m3 = F[cat][prev](m1)
-            r = C07.compare(base, m3, _W['nmcompare'].rename_unmatched(base, m3), [], eq)
+            r = C07.compare(base, m3, rename_used(base, m3), [], eq, outputs_only=True)
             bad = [(o, d) for o, v, d in r if v == 'violated']
             inc = [o for o, v, d in r if v == 'inconclusive']
             if bad:
